@@ -1,7 +1,7 @@
 (* C14 -- CSS codec: detection priority, inverse, chunking invariance.
    Property theorems only; proofs are in CssV.CodecDetect / CssV.CodecFacts.
    Subjects: Gen/CodecFns.v (regenerated from _codec3.py on every run) and Codec.v (hand-written model). *)
-From CssV Require Import Base CodecPyLib Gen.CodecFns Codec CodecConcrete CodecDetect CodecFacts.
+From CssV Require Import Base CodecPyLib Gen.CodecFns Codec CodecConcrete CodecDetect CodecFacts CodecInverse CodecInstances.
 
 (* ---------------------------------------------------------------- detection (generated detectencoding_str) *)
 (* never IndexError *)
@@ -160,6 +160,106 @@ Print Assumptions incdec_chunking.
 Print Assumptions incenc_chunking.
 Print Assumptions decode_encode.
 
+(* ---------------------------------------------------------------- decode after encode, DETECTED encoding *)
+Section C14_detected.
+  Variable dshot : str -> str -> res str.      (* codecs.getdecoder(name)(bytes)[0] *)
+  Variable eshot : str -> str -> res str.      (* codecs.getencoder(name)(text)[0] *)
+
+  (* no encoding argument on either side; the text starts with a complete rule  at-charset "e"  naming an
+     invertible codec that leaves the ASCII rule head readable in its bytes (utf-8, latin-1, ascii, cp1252 ...):
+     exactly the text comes back *)
+  Theorem decode_encode_detected : forall e rest b force,
+    ~ In 34%N e -> is_css e = false -> is_sig e = false ->
+    (forall x y, eshot e x = Ok y -> dshot e y = Ok x) ->
+    (forall y, eshot e (prefix ++ e ++ 34%N :: rest) = Ok y -> exists tl, y = prefix ++ e ++ 34%N :: tl) ->
+    encode eshot (prefix ++ e ++ 34%N :: rest) None = Ok b ->
+    decode dshot b None force = Ok (prefix ++ e ++ 34%N :: rest).
+  Proof. exact (decode_encode_charset_thm dshot eshot). Qed.
+
+  (* the rule names utf-8-sig in any spelling: BOM in the bytes, rule renamed to utf-8 (the documented rewrite) *)
+  Theorem decode_encode_detected_sig : forall e rest b force,
+    ~ In 34%N e -> is_css e = false -> is_sig e = true ->
+    (forall y, eshot e (prefix ++ utf8 ++ 34%N :: rest) = Ok y ->
+       (exists tl, y = (239 :: 187 :: 191 :: tl)%N) /\ dshot sig_name y = Ok (prefix ++ utf8 ++ 34%N :: rest)) ->
+    encode eshot (prefix ++ e ++ 34%N :: rest) None = Ok b ->
+    decode dshot b None force = Ok (prefix ++ utf8 ++ 34%N :: rest).
+  Proof. exact (decode_encode_sig_thm dshot eshot). Qed.
+
+  (* the encoded bytes start with the UTF-16 LE BOM: rule renamed to utf-16 whatever its spelling was *)
+  Theorem decode_encode_detected_utf16 : forall e rest b b2 b3 tl force,
+    ~ In 34%N e -> is_css e = false -> is_sig e = false ->
+    b = (255 :: 254 :: b2 :: b3 :: tl)%N -> (b2 <> 0 \/ b3 <> 0)%N ->
+    (forall y, eshot e (prefix ++ e ++ 34%N :: rest) = Ok y -> dshot utf16 y = Ok (prefix ++ e ++ 34%N :: rest)) ->
+    encode eshot (prefix ++ e ++ 34%N :: rest) None = Ok b ->
+    decode dshot b None force = Ok (prefix ++ utf16 ++ 34%N :: rest).
+  Proof. exact (decode_encode_utf16_thm dshot eshot). Qed.
+
+  (* no leading rule: UTF-8 both ways, text unchanged *)
+  Theorem decode_encode_detected_norule : forall t b force,
+    starts prefix t = false ->
+    (forall x y, eshot utf8 x = Ok y -> dshot utf8 y = Ok x) ->
+    (b = [] \/ exists b0 r, b = b0 :: r /\ b0 <> 239 /\ b0 <> 255 /\ b0 <> 254 /\ b0 <> 64 /\ b0 <> 0)%N ->
+    encode eshot t None = Ok b ->
+    decode dshot b None force = Ok t.
+  Proof. exact (decode_encode_norule_thm dshot eshot). Qed.
+
+  (* an unterminated rule (the repaired defect): encoded as UTF-8, comes back unchanged *)
+  Theorem decode_encode_detected_unterminated : forall e0 b force,
+    ~ In 34%N e0 ->
+    (forall x y, eshot utf8 x = Ok y -> dshot utf8 y = Ok x) ->
+    (forall y, eshot utf8 (prefix ++ e0) = Ok y -> exists tl, y = prefix ++ tl /\ ~ In 34%N tl) ->
+    encode eshot (prefix ++ e0) None = Ok b ->
+    decode dshot b None force = Ok (prefix ++ e0).
+  Proof. exact (decode_encode_unterminated_thm dshot eshot). Qed.
+End C14_detected.
+Print Assumptions decode_encode_detected.
+Print Assumptions decode_encode_detected_sig.
+Print Assumptions decode_encode_detected_utf16.
+Print Assumptions decode_encode_detected_norule.
+Print Assumptions decode_encode_detected_unterminated.
+
+(* ---------------------------------------------------------------- the hypotheses discharged for Gallina codecs *)
+(* decoders utf-8, utf-16-le/-be, utf-32-le/-be, latin-1, ascii (r_*: CodecConcrete's decoders for these names,
+   see cd_step_is_r_step / cd_shot_is_r_shot); encoders: every codec of CodecConcrete.v *)
+Theorem incdec_chunking_concrete : forall enc force chunks last,
+  dec_feed rst r_init r_step (dec_init rst enc force) chunks last = decode r_shot (concat chunks ++ last) enc force.
+Proof. exact incdec_chunking_concrete. Qed.
+Print Assumptions incdec_chunking_concrete.
+
+Theorem incenc_chunking_concrete : forall enc chunks last,
+  enc_feed cest ce_init ce_step (enc_init cest enc) chunks last = encode ce_shot (concat chunks ++ last) enc.
+Proof. exact incenc_chunking_concrete. Qed.
+Print Assumptions incenc_chunking_concrete.
+
+Theorem cd_step_is_r_step : forall k le p input final,
+  cd_step (mkCD k p (Some le)) input final =
+  (mkCD k (snd (fst (r_step (k, le, p) input final))) (Some le), snd (r_step (k, le, p) input final)).
+Proof. exact r_step_is_cd_step. Qed.
+Print Assumptions cd_step_is_r_step.
+
+Theorem cd_shot_is_r_shot : forall e b, r_init e <> None -> r_shot e b = cd_shot e b.
+Proof. exact r_shot_is_cd_shot. Qed.
+Print Assumptions cd_shot_is_r_shot.
+
+(* encode then decode without any encoding argument, rule naming latin-1 / iso-8859-1 / ascii: no hypothesis left *)
+Theorem decode_encode_detected_onebyte : forall e rest b force,
+  (lookup e = Some KLatin \/ lookup e = Some KAscii) -> ~ In 34%N e -> is_css e = false ->
+  encode ce_shot (prefix ++ e ++ 34%N :: rest) None = Ok b ->
+  decode r_shot b None force = Ok (prefix ++ e ++ 34%N :: rest).
+Proof. exact decode_encode_detected_onebyte. Qed.
+Print Assumptions decode_encode_detected_onebyte.
+
+(* the call-by-call trace (which call raises) and the joined result *)
+Theorem dec_feed_is_collapsed_trace : forall dst dinit dstep chunks st last,
+  dec_feed dst dinit dstep st chunks last = collapse (dec_trace dst dinit dstep st chunks last).
+Proof. exact dec_feed_trace. Qed.
+Print Assumptions dec_feed_is_collapsed_trace.
+
+Theorem enc_feed_is_collapsed_trace : forall est einit estep chunks st last,
+  enc_feed est einit estep st chunks last = collapse (enc_trace est einit estep st chunks last).
+Proof. exact enc_feed_trace. Qed.
+Print Assumptions enc_feed_is_collapsed_trace.
+
 (* ---------------------------------------------------------------- non-vacuity *)
 (* the hypotheses hold for a concrete codec, and the theorem then speaks about a non-trivial run:
    the header is cut inside the rule, the name is rewritten from x to latin-1 *)
@@ -192,3 +292,21 @@ Proof. split; reflexivity. Qed.
 Example detect_priority_charset_instance :
   detectencoding_str (s "@charset ""koi8-r"";x") false = Some (Some (s "koi8-r"), true).
 Proof. reflexivity. Qed.
+
+(* utf-8 with a character cut in the middle and an error in the third call: the closed instance speaks about it *)
+Example incdec_chunking_concrete_instance :
+  dec_feed rst r_init r_step (dec_init rst None true) [s "@charset ""utf-8"";"; [195]%N] [169]%N
+  = Ok (s "@charset ""utf-8"";" ++ [233]%N)
+  /\ dec_trace rst r_init r_step (dec_init rst None true) [s "a"; [195]%N] (s "(")
+  = [Ok (s "a"); Ok []; Err EUnicode].
+Proof. split; vm_compute; reflexivity. Qed.
+
+Example decode_encode_detected_onebyte_instance :
+  encode ce_shot (s "@charset ""latin-1"";g" ++ [252]%N) None = Ok (s "@charset ""latin-1"";g" ++ [252]%N)
+  /\ decode r_shot (s "@charset ""latin-1"";g" ++ [252]%N) None true = Ok (s "@charset ""latin-1"";g" ++ [252]%N).
+Proof. split; vm_compute; reflexivity. Qed.
+
+Example incenc_chunking_concrete_instance :
+  enc_feed cest ce_init ce_step (enc_init cest None) [s "@charset ""utf"; s "-16"";"] [8364]%N
+  = encode ce_shot (s "@charset ""utf-16"";" ++ [8364]%N) None.
+Proof. vm_compute. reflexivity. Qed.
